@@ -9,8 +9,12 @@
 //          with a model-free oracle (failed statement has no effect, session isolation, new
 //          sessions see the globals, integer literals read back unchanged).
 //
-// Envelope (see lean/Gms/Model/SysVars.lean): variables flagged `special` (NotifyChanged /
-// ValueFunction / coupled or validated by name / not a system_* type) are never SET or read;
+// Further streams: strconv.go (numeric strings: facts table + `numstr` histories + oracle),
+// charset.go (character-set / collation family: validators, coupled pairs, catalog reads, SET NAMES).
+//
+// Envelope (see lean/Gms/Model/SysVars.lean): variables flagged `special` (a NotifyChanged hook other
+// than the two character-set validators / ValueFunction / validated by name / not a system_* type)
+// are never SET or read;
 // sql_mode never gets a numeric value (planbuilder rewrites IntVal through ConvertSqlModeBitmask).
 // SET PERSIST on a memory.Session without SetGlobals(...) panics ("assignment to entry in nil
 // map", the default session builder never calls it) — that is C10's business; sessions here get a
@@ -36,7 +40,13 @@ import (
 	"github.com/dolthub/go-mysql-server/verifharness/hx/eng"
 )
 
-func main() { hx.Main(extract, run) }
+func main() {
+	if len(os.Args) > 1 && os.Args[1] == "script" {
+		scriptMain()
+		return
+	}
+	hx.Main(extract, run)
+}
 
 // ---------------------------------------------------------------------------------------------
 // Registry dump (shared by extract and run).
@@ -53,6 +63,10 @@ type varInfo struct {
 	LeanTy  string
 	LeanDef string
 	DefText string
+	Allowed string // "charset" | "collation": NotifyChanged validator (accepted names = keys of the dumped tables)
+	Couple  string // the counterpart assigned by setSystemVar
+	Catalog string // what a SESSION-scope read returns for character_set_database / collation_database
+	HasCat  bool
 }
 
 type registry struct {
@@ -108,6 +122,10 @@ func decOfFloat(f float64) (string, int, error) {
 
 func dumpRegistry(special map[string]bool) (*registry, error) {
 	reg := &registry{byName: map[string]*varInfo{}}
+	catalog, err := catalogValues()
+	if err != nil {
+		return nil, err
+	}
 	seen := map[string]bool{}
 	for _, e := range variables.VerifRegistry() {
 		if seen[e.Key] {
@@ -155,7 +173,24 @@ func dumpRegistry(special map[string]bool) (*registry, error) {
 				reg.defRejected = append(reg.defRejected, e.Key)
 			}
 		}
-		v.Special = special[e.Key] || m.ValueFunction != nil || m.NotifyChanged != nil
+		nk := notifyKind(m)
+		v.Special = special[e.Key] || m.ValueFunction != nil || nk == "other"
+		if nk == "charset" || nk == "collation" {
+			v.Allowed = nk
+			if d.Kind != "string" {
+				v.Special = true
+			}
+		}
+		if o, ok := pairOf[e.Key]; ok {
+			v.Couple = o
+			// the coupling table is keyed by what the variable's own validator accepts
+			if (strings.HasPrefix(e.Key, "character_set_") && nk != "charset") || (strings.HasPrefix(e.Key, "collation_") && nk != "collation") {
+				v.Special = true
+			}
+		}
+		if catalogVars[e.Key] {
+			v.Catalog, v.HasCat = catalog[e.Key], true
+		}
 		if d.VarName != "" && d.VarName != e.Key {
 			reg.badEntries = append(reg.badEntries, fmt.Sprintf("%s: type carries the name %q", e.Key, d.VarName))
 		}
@@ -250,7 +285,9 @@ func dumpRegistry(special map[string]bool) (*registry, error) {
 			v.LeanTy = ".other"
 			v.Special = true
 			v.DefText = fmt.Sprint(m.Default)
-			v.LeanDef = ".str " + hx.LeanString(v.DefText)
+			// not a system_* type (server_id, server_uuid): never driven; the default is not part of the facts
+			// (server_uuid is a fresh random value in every process, which would change the fact file on every run)
+			v.LeanDef = ".str \"\""
 		}
 		reg.vars = append(reg.vars, v)
 	}
@@ -293,6 +330,8 @@ func switchCaseStrings(src *hx.Src, fn *ast.FuncDecl, tagArgs map[string]bool) [
 
 type specialFacts struct {
 	coupled, validated, planSpecial, planIntSpecial []string
+	coupledWrites, strconvCalls     [][2]string
+	namesExpansion                  []string
 	setValueChecks                  [][2]string
 	persistCalls, persistOnlyCalls  []string
 	files                           []string
@@ -309,6 +348,25 @@ func astFacts(repo string) (*specialFacts, error) {
 		return nil, err
 	}
 	f.coupled = switchCaseStrings(ri, fn, map[string]bool{"sysVar.Name": true})
+	// every `<recv>.SetValue(ctx, <name>, …)` of setSystemVar: through which scope the variable itself and
+	// the counterparts are written
+	ast.Inspect(fn.Body, func(n ast.Node) bool {
+		call, ok := n.(*ast.CallExpr)
+		if !ok || len(call.Args) < 2 {
+			return true
+		}
+		if sel, ok := call.Fun.(*ast.SelectorExpr); ok && sel.Sel.Name == "SetValue" {
+			w := [2]string{ri.Text(sel.X), ri.Text(call.Args[1])}
+			dup := false
+			for _, x := range f.coupledWrites {
+				dup = dup || x == w
+			}
+			if !dup {
+				f.coupledWrites = append(f.coupledWrites, w)
+			}
+		}
+		return true
+	})
 	fn, err = ri.Func("", "validateSystemVariableValue")
 	if err != nil {
 		return nil, err
@@ -389,16 +447,68 @@ func astFacts(repo string) (*specialFacts, error) {
 	if found != 2 {
 		return nil, fmt.Errorf("MysqlScope.SetValue: Persist / PersistOnly cases not found")
 	}
+	// SET NAMES: the variables getSetVarExprsFromSetNamesExpr assigns, in order
+	fn, err = pb.Func("", "getSetVarExprsFromSetNamesExpr")
+	if err != nil {
+		return nil, err
+	}
+	ast.Inspect(fn.Body, func(n ast.Node) bool {
+		if call, ok := n.(*ast.CallExpr); ok && pb.Text(call.Fun) == "ast.NewColName" && len(call.Args) == 1 {
+			if bl, ok := call.Args[0].(*ast.BasicLit); ok && bl.Kind == token.STRING {
+				x, _ := strconv.Unquote(bl.Value)
+				f.namesExpansion = append(f.namesExpansion, x)
+			}
+		}
+		return true
+	})
+	// every strconv call of the system_* types and of SetType (the base / bit size arguments are part of
+	// what the model transliterates)
 	f.files = []string{ri.Path, pb.Path, core.Path}
+	for _, rel := range []string{"sql/types/system_bool.go", "sql/types/system_int.go", "sql/types/system_uint.go", "sql/types/system_double.go",
+		"sql/types/system_enum.go", "sql/types/system_set.go", "sql/types/set.go"} {
+		ts, err := hx.ParseSrc(repo, rel)
+		if err != nil {
+			return nil, err
+		}
+		for _, d := range ts.File.Decls {
+			fd, ok := d.(*ast.FuncDecl)
+			if !ok || fd.Body == nil {
+				continue
+			}
+			ast.Inspect(fd.Body, func(n ast.Node) bool {
+				call, ok := n.(*ast.CallExpr)
+				if !ok {
+					return true
+				}
+				if sel, ok := call.Fun.(*ast.SelectorExpr); ok {
+					if id, ok := sel.X.(*ast.Ident); ok && id.Name == "strconv" && strings.HasPrefix(sel.Sel.Name, "Parse") {
+						f.strconvCalls = append(f.strconvCalls, [2]string{rel[strings.LastIndex(rel, "/")+1:] + ":" + fd.Name.Name, strings.Join(strings.Fields(ts.Text(call)), " ")})
+					}
+				}
+				return true
+			})
+		}
+		f.files = append(f.files, ts.Path)
+	}
 	return f, nil
 }
 
 func src(s *hx.Src, n ast.Node) string { return s.Text(n) }
 
+// specialSet: names treated by name in the executor / planbuilder in a way the model does not
+// cover (the coupled pairs and the catalog variables are modelled: charset.go).
 func (f *specialFacts) specialSet() map[string]bool {
 	m := map[string]bool{}
-	for _, l := range [][]string{f.coupled, f.validated, f.planSpecial} {
-		for _, n := range l {
+	for _, n := range f.validated {
+		m[n] = true
+	}
+	for _, n := range f.coupled {
+		if _, ok := pairOf[n]; !ok {
+			m[n] = true
+		}
+	}
+	for _, n := range f.planSpecial {
+		if !catalogVars[n] {
 			m[n] = true
 		}
 	}
@@ -414,9 +524,22 @@ func extract(a hx.ExtractArgs) error {
 	if err != nil {
 		return err
 	}
+	tabs, tfiles, err := dumpCsTables(a.Repo)
+	if err != nil {
+		return err
+	}
+	sfacts, nfacts, err := strFactsLean()
+	if err != nil {
+		return err
+	}
 	var b strings.Builder
-	fmt.Fprintf(&b, "/- GENERATED on every run by the harness extractor from /repo's working tree. Do not edit.\n   Sources: run-time dump of sql/variables systemVars + mariadbSystemVars (types: sql/types/system_*.go), %s -/\n", strings.Join(facts.files, ", "))
+	fmt.Fprintf(&b, "/- GENERATED on every run by the harness extractor from /repo's working tree. Do not edit.\n   Sources: run-time dump of sql/variables systemVars + mariadbSystemVars (types: sql/types/system_*.go), %s,\n   run-time dump of sql.ParseCharacterSet / sql.ParseCollation over the names of %s, run-time table of Convert on %d strings -/\n", strings.Join(facts.files, ", "), strings.Join(tfiles, ", "), nfacts)
 	b.WriteString("import Gms.Model.SysVars\nnamespace Gms.Generated.C44\n\nopen Gms.SysVars\n\n")
+	b.WriteString("/-- names `sql.ParseCharacterSet` accepts (lower case) and the name of the default collation of each -/\n")
+	b.WriteString("def charsetDefault : List (String × String) := " + leanKvList(tabs.charsetDefault) + "\n\n")
+	b.WriteString("/-- names `sql.ParseCollation` accepts (lower case) and the name of the character set of each -/\n")
+	b.WriteString("def collationCharset : List (String × String) := " + leanKvList(tabs.collationCharset) + "\n\n")
+	b.WriteString(sfacts + "\n")
 	b.WriteString("/-- the registry as compiled: name, Scope.Type, Dynamic, special (hook / coupled / foreign type), type with bounds, Default -/\n")
 	b.WriteString("def sysvars : List Var := [\n")
 	for i, v := range reg.vars {
@@ -424,8 +547,19 @@ func extract(a hx.ExtractArgs) error {
 		if i == len(reg.vars)-1 {
 			sep = ""
 		}
-		fmt.Fprintf(&b, "  { name := %s, scope := .%s, dynamic := %v, special := %v, ty := %s, default := %s }%s\n",
-			hx.LeanString(v.Name), v.Scope, v.Dynamic, v.Special, v.LeanTy, v.LeanDef, sep)
+		more := ""
+		tabOf := map[string]string{"charset": "charsetDefault", "collation": "collationCharset"}
+		if v.Allowed != "" {
+			more += fmt.Sprintf(", allowed := some (%s.map (·.1))", tabOf[v.Allowed])
+		}
+		if v.Couple != "" && v.Allowed != "" {
+			more += fmt.Sprintf(", couple := some (%s, %s)", hx.LeanString(v.Couple), tabOf[v.Allowed])
+		}
+		if v.HasCat {
+			more += fmt.Sprintf(", catalog := some (.str %s)", hx.LeanString(v.Catalog))
+		}
+		fmt.Fprintf(&b, "  { name := %s, scope := .%s, dynamic := %v, special := %v, ty := %s, default := %s%s }%s\n",
+			hx.LeanString(v.Name), v.Scope, v.Dynamic, v.Special, v.LeanTy, v.LeanDef, more, sep)
 	}
 	b.WriteString("]\n\n")
 	fmt.Fprintf(&b, "/-- map keys that differ from the entry's Name or are not lower case -/\ndef keyMismatch : List String := %s\n", leanStrList(reg.keyMismatch))
@@ -436,6 +570,16 @@ func extract(a hx.ExtractArgs) error {
 	fmt.Fprintf(&b, "/-- variables whose registered default is rejected by their own Type.Convert (run on the compiled code) -/\ndef defaultRejected : List String := %s\n", leanStrList(reg.defRejected))
 	fmt.Fprintf(&b, "/-- entries the dump could not describe (unexpected default type, non-integral bound, …) -/\ndef badEntries : List String := %s\n\n", leanStrList(reg.badEntries))
 	fmt.Fprintf(&b, "/-- sql/rowexec/rel_iters.go setSystemVar: names with a coupled second assignment -/\ndef coupledVars : List String := %s\n", leanStrList(facts.coupled))
+	pairList := func(xs [][2]string) string {
+		parts := make([]string, len(xs))
+		for i, c := range xs {
+			parts[i] = fmt.Sprintf("(%s, %s)", hx.LeanString(c[0]), hx.LeanString(c[1]))
+		}
+		return "[" + strings.Join(parts, ", ") + "]"
+	}
+	fmt.Fprintf(&b, "/-- setSystemVar: every `<receiver>.SetValue(ctx, <name>, …)` (receiver, name), duplicates removed -/\ndef coupledWrites : List (String × String) := %s\n", pairList(facts.coupledWrites))
+	fmt.Fprintf(&b, "/-- getSetVarExprsFromSetNamesExpr: what SET NAMES assigns, in order -/\ndef namesExpansion : List String := %s\n", leanStrList(facts.namesExpansion))
+	fmt.Fprintf(&b, "/-- strconv.Parse* calls of the system_* types and SetType: (file:function, call) -/\ndef strconvCalls : List (String × String) := %s\n", pairList(facts.strconvCalls))
 	fmt.Fprintf(&b, "/-- validateSystemVariableValue: names validated by name -/\ndef validatedVars : List String := %s\n", leanStrList(facts.validated))
 	fmt.Fprintf(&b, "/-- sql/planbuilder/set.go buildSysVar: names read from the database instead of the session -/\ndef planSpecialVars : List String := %s\n", leanStrList(facts.planSpecial))
 	fmt.Fprintf(&b, "/-- sql/planbuilder/set.go setExprsToExpressions: names whose integer literals are rewritten -/\ndef planIntSpecialVars : List String := %s\n", leanStrList(facts.planIntSpecial))
@@ -616,11 +760,12 @@ type asg struct {
 }
 
 type stmt struct {
-	kind  string // new | set | get | getp
+	kind  string // new | set | names | get | getp
 	sid   int
-	asgs  []asg
+	asgs  []asg // names: the expansion (what the oracle reasons about)
 	refs  []target
 	pname string
+	nrhs  rhs // names: the right-hand side of SET NAMES
 }
 
 func (s stmt) sexp() string {
@@ -633,6 +778,8 @@ func (s stmt) sexp() string {
 			parts = append(parts, hx.List("asg", a.t.sexp(), a.r.sexp()))
 		}
 		return hx.List(parts...)
+	case "names":
+		return hx.List("names", strconv.Itoa(s.sid), s.nrhs.sexp())
 	case "getp":
 		return hx.List("getp", hx.HexS(s.pname))
 	}
@@ -690,6 +837,8 @@ func errClass(err error) string {
 		return "invalid"
 	case sql.ErrUnsupportedFeature.Is(err) || strings.HasPrefix(err.Error(), "unsupported feature"):
 		return "unsupported"
+	case sql.ErrCharSetUnknown.Is(err), sql.ErrCollationUnknown.Is(err):
+		return "charset"
 	}
 	return "other"
 }
@@ -753,7 +902,7 @@ func (w *world) exec(s stmt, text string) string {
 	case r.Err != nil:
 		return "err:" + errClass(r.Err)
 	}
-	if s.kind == "set" {
+	if s.kind == "set" || s.kind == "names" {
 		return "ok"
 	}
 	if len(r.Rows) != 1 {
@@ -806,6 +955,19 @@ func sqlOf(r *hx.Rand, reg *registry, s stmt) string {
 			parts[i] = l + " = " + rv
 		}
 		return "SET " + strings.Join(parts, ", ")
+	case "names":
+		switch s.nrhs.kind {
+		case 'd':
+			return "SET NAMES DEFAULT"
+		case 'l':
+			if s.nrhs.v.k == 's' {
+				if identLike(s.nrhs.v.str) && r.Bool() {
+					return "SET NAMES " + s.nrhs.v.str
+				}
+				return "SET NAMES '" + s.nrhs.v.str + "'"
+			}
+		}
+		return "SET NAMES " + s.nrhs.v.sql(r)
 	case "get":
 		parts := make([]string, len(s.refs))
 		for i, t := range s.refs {
@@ -814,6 +976,18 @@ func sqlOf(r *hx.Rand, reg *registry, s stmt) string {
 		return "SELECT " + strings.Join(parts, ", ")
 	}
 	return ""
+}
+
+func identLike(x string) bool {
+	if x == "" || (x[0] >= '0' && x[0] <= '9') || strings.EqualFold(x, "default") || strings.EqualFold(x, "binary") {
+		return false
+	}
+	for _, c := range x {
+		if !(c >= 'a' && c <= 'z' || c >= 'A' && c <= 'Z' || c >= '0' && c <= '9' || c == '_') {
+			return false
+		}
+	}
+	return true
 }
 
 // snapshot: the whole observable variable state for the focus names, through the Go API.
@@ -881,6 +1055,12 @@ func runHistory(e *eng.Eng, reg *registry, r *hx.Rand, h []stmt, out *hx.Out) (o
 			}
 		}
 	}
+	for n := range nameSet { // the counterpart of a coupled variable is watched too
+		if o, ok := pairOf[n]; ok {
+			nameSet[o] = true
+		}
+	}
+	ustr := map[string]string{} // user variables currently holding a string literal assigned by this history
 	var names, unames []string
 	for n := range nameSet {
 		if _, ok := reg.byName[n]; ok {
@@ -899,12 +1079,49 @@ func runHistory(e *eng.Eng, reg *registry, r *hx.Rand, h []stmt, out *hx.Out) (o
 		text := sqlOf(r, reg, s)
 		texts = append(texts, fmt.Sprintf("[%d] %s %s", s.sid, s.kind, text))
 		var before map[string]string
-		if s.kind == "set" {
+		isSet := s.kind == "set" || s.kind == "names"
+		if isSet {
 			before = w.snapshot(names, unames)
 		}
 		o := w.exec(s, text)
 		parts = append(parts, o)
-		switch s.kind {
+		kind := s.kind
+		if kind == "names" {
+			kind = "set"
+		}
+		// the string a single assignment hands to a system variable (literal, or a user variable that holds one)
+		strOf := func() (vi *varInfo, str string, key string, ok bool) {
+			if len(s.asgs) != 1 || s.asgs[0].t.user || s.kind != "set" {
+				return nil, "", "", false
+			}
+			a := s.asgs[0]
+			vi = reg.byName[a.t.ref.name]
+			if vi == nil {
+				return nil, "", "", false
+			}
+			switch {
+			case a.r.kind == 'l' && a.r.v.k == 's':
+				str = a.r.v.str
+			case a.r.kind == 'r' && a.r.t.user:
+				x, has := ustr[fmt.Sprintf("%d:%s", s.sid, strings.ToLower(a.r.t.name))]
+				if !has {
+					return nil, "", "", false
+				}
+				str = x
+			default:
+				return nil, "", "", false
+			}
+			switch a.t.ref.scope {
+			case "session":
+				key = fmt.Sprintf("s:%d:%s", s.sid, vi.Name)
+			case "global", "persist":
+				key = "g:" + vi.Name
+			default:
+				key = "p:" + vi.Name
+			}
+			return vi, str, key, true
+		}
+		switch kind {
 		case "new":
 			sessions++
 			after := w.snapshot(names, nil)
@@ -916,7 +1133,20 @@ func runHistory(e *eng.Eng, reg *registry, r *hx.Rand, h []stmt, out *hx.Out) (o
 		case "set":
 			after := w.snapshot(names, unames)
 			mine := fmt.Sprintf(":%d:", s.sid)
+			for _, a := range s.asgs { // bookkeeping of string-valued user variables
+				if a.t.user { // user variables are private to the session
+					uk := fmt.Sprintf("%d:%s", s.sid, strings.ToLower(a.t.name))
+					delete(ustr, uk)
+					if o == "ok" && len(s.asgs) == 1 && a.r.kind == 'l' && a.r.v.k == 's' {
+						ustr[uk] = a.r.v.str
+					}
+				}
+			}
 			if o != "ok" {
+				if vi, str, _, ok := strOf(); ok {
+					out.Stat("string-set:" + vi.Kind + ":rejected")
+					fails = append(fails, stringOracle(vi, str, false, o, "", text)...)
+				}
 				out.Stat("set:" + strings.SplitN(o, "(", 2)[0])
 				if d := diffKeys(before, after, func(string) bool { return true }); len(d) > 0 {
 					// classification by the shape of the statement, not by "whatever failed"
@@ -961,6 +1191,44 @@ func runHistory(e *eng.Eng, reg *registry, r *hx.Rand, h []stmt, out *hx.Out) (o
 				if d := diffKeys(before, after, func(k string) bool { return strings.HasPrefix(k, "s:") && !strings.Contains(k, mine) }); len(d) > 0 {
 					fails = append(fails, oracleFail{"-", fmt.Sprintf("%s changed session values of other sessions: %v", text, d)})
 				}
+			}
+			// a SET whose targets are all GLOBAL / PERSIST / PERSIST_ONLY changes no session value at all — not
+			// even in the session that issued it
+			noSession := len(s.asgs) > 0
+			for _, a := range s.asgs {
+				if a.t.user || a.t.ref.scope == "session" {
+					noSession = false
+				}
+			}
+			if noSession {
+				if d := diffKeys(before, after, func(k string) bool { return strings.HasPrefix(k, "s:") }); len(d) > 0 {
+					fails = append(fails, oracleFail{"-", fmt.Sprintf("%s (no SESSION target) changed session values: %v", text, d)})
+				}
+			}
+			// after a successful single assignment to one half of a coupled pair, both halves name the same
+			// character set in the scope that was assigned
+			if len(s.asgs) == 1 && !s.asgs[0].t.user {
+				a := s.asgs[0]
+				if other, ok := pairOf[a.t.ref.name]; ok && reg.byName[a.t.ref.name] != nil && !reg.byName[a.t.ref.name].Special {
+					prefix := "g:"
+					switch a.t.ref.scope {
+					case "session":
+						prefix = fmt.Sprintf("s:%d:", s.sid)
+					case "persistonly":
+						prefix = "p:"
+					}
+					cs, co := after[prefix+a.t.ref.name], after[prefix+other]
+					if strings.HasPrefix(a.t.ref.name, "collation_") {
+						cs, co = co, cs
+					}
+					if !pairConsistent(cs, co) {
+						fails = append(fails, oracleFail{"-", fmt.Sprintf("after %s the pair is inconsistent in the assigned scope: character set %q, collation %q", text, cs, co)})
+					}
+				}
+			}
+			if vi, str, key, ok := strOf(); ok {
+				out.Stat("string-set:" + vi.Kind + ":accepted")
+				fails = append(fails, stringOracle(vi, str, true, o, after[key], text)...)
 			}
 			// a single integer / decimal literal must read back as written (or be rejected)
 			if len(s.asgs) == 1 && !s.asgs[0].t.user && s.asgs[0].r.kind == 'l' {
@@ -1150,6 +1418,9 @@ func pool(r *hx.Rand, v *varInfo) []val {
 		}
 	case "string":
 		p = append(p, sv(randStr(r, 8)), sv(""), sv("x"), iv(5), dv(15, 1), fv(1, 0))
+	}
+	if v.Allowed != "" && csTab != nil {
+		p = csPool(r, csTab, v.Allowed)
 	}
 	p = append(p, common...)
 	if intSpecial[v.Name] { // integer literals of these names are rewritten by the planbuilder (sql_mode bitmask, collation ids, lc_time_names)
@@ -1357,6 +1628,9 @@ func corpus() [][]stmt {
 
 var intSpecial = map[string]bool{}
 
+// csTab: the dumped character-set tables (set by run).
+var csTab *csTables
+
 func run(a hx.RunArgs) error {
 	facts, err := astFacts(a.Repo)
 	if err != nil {
@@ -1377,20 +1651,36 @@ func run(a hx.RunArgs) error {
 	out.Rule = "one case = one multi-session history over a freshly initialised registry: (a) for every non-special registered variable a systematic history " +
 		"(valid, boundary, out-of-range and wrong-type values through SET SESSION/GLOBAL in session 1, @@x/@@global.x read in sessions 1, 2 and a later session 3), " +
 		"(b) random histories over 1-3 variables with multi-assignment SET, PERSIST/PERSIST_ONLY, DEFAULT, @@x/@u right-hand sides, user variables and new sessions, " +
-		"closed by a read of every focus variable in every session and of the persisted map; non-trivial = at least one SET succeeded and at least two sessions exist"
+		"closed by a read of every focus variable in every session and of the persisted map, " +
+		"(c) numstr: every numeric / enum / set variable is assigned quoted strings built around values of its own range (zero-padded, signed, blank-padded, 0x/0b/0o-prefixed, " +
+		"underscored, exponent / point / hexadecimal-float forms, garbage) as a literal and through a user variable, read back in three sessions, " +
+		"(d) coupled: the character-set / collation family (validators, character_set_server/collation_server and character_set_connection/collation_connection coupling, " +
+		"catalog reads of character_set_database/collation_database, SET NAMES) in SESSION / GLOBAL / PERSIST scope, both halves of a pair read in the issuing session, another " +
+		"session and a new session; non-trivial = at least one SET succeeded and at least two sessions exist"
 	r := hx.NewRand(a.Seed).Fork() // NewRand(s+1) is NewRand(s) shifted by one draw: only forks of the first draw are used
 	e := eng.New("d")
 
-	var usable []*varInfo
+	csTab, _, err = dumpCsTables(a.Repo)
+	if err != nil {
+		return err
+	}
+	// usable: the variables of the general streams; csUsable: the character-set family (validators,
+	// coupled pairs, catalog reads), driven by its own streams below with its own generator state
+	var usable, csUsable []*varInfo
 	for i := range reg.vars {
 		// a name with a dot (dragnet.log_error_filter_rules) cannot be written in SQL: `SET GLOBAL a.b` is a
 		// qualified column for the parser
 		if !reg.vars[i].Special && !strings.Contains(reg.vars[i].Name, ".") {
-			usable = append(usable, &reg.vars[i])
+			if reg.vars[i].Allowed != "" || reg.vars[i].Couple != "" || reg.vars[i].HasCat {
+				csUsable = append(csUsable, &reg.vars[i])
+			} else {
+				usable = append(usable, &reg.vars[i])
+			}
 		}
 	}
 	out.Extra["registry_size"] = len(reg.vars)
-	out.Extra["usable_variables"] = len(usable)
+	out.Extra["usable_variables"] = len(usable) + len(csUsable)
+	out.Extra["charset_family_variables"] = len(csUsable)
 
 	emit := func(kind string, h []stmt, rr *hx.Rand) {
 		parts := make([]string, len(h))
@@ -1443,6 +1733,33 @@ func run(a hx.RunArgs) error {
 	for i := 0; i < nRand; i++ {
 		rr := r.Fork()
 		emit("random", randomHistory(rr, reg, usable), rr.Fork())
+	}
+
+	// --- streams added for the string-conversion and coupled-pair classes (own generator state: the
+	// streams above stay the same sample for a given seed)
+	r2 := hx.NewRand(a.Seed*1000003 + 44).Fork()
+	for _, h := range numstrCorpus(reg) {
+		emit("numstr-corpus", h, r2.Fork())
+	}
+	for _, h := range coupledCorpus(reg) {
+		emit("coupled-corpus", h, r2.Fork())
+	}
+	nStr, nCoupled, coupledSteps := 5, 40, 8
+	if a.Thorough {
+		nStr, nCoupled, coupledSteps = 40, 1500, 14
+	}
+	for _, v := range usable {
+		switch v.Kind {
+		case "int", "uint", "double", "bool", "enum", "set":
+			emit("numstr:"+v.Kind, numstrHistory(r2.Fork(), v, nStr), r2.Fork())
+		}
+	}
+	for _, v := range csUsable {
+		emit("systematic:charset", systematic(r2.Fork(), v, nVals), r2.Fork())
+	}
+	for i := 0; i < nCoupled; i++ {
+		rr := r2.Fork()
+		emit("coupled", coupledHistory(rr, reg, csTab, coupledSteps), rr.Fork())
 	}
 	return nil
 }
